@@ -8,16 +8,33 @@ use serde_json::{json, Value};
 use std::collections::BTreeMap;
 use std::hash::{Hash, Hasher};
 
-pub const SHAPES: [&str; 13] = ["block-seq", "block-seq-nl", "block-map-nl", "explicit-key", "flow-seq", "flow-map", "flow-alternating", "seq-of-explicit-key", "built-seq", "built-map-value", "built-map-key", "block-seq-then-error", "block-seq-no-final-break"];
+pub const SHAPES: [&str; 16] = ["block-seq", "block-seq-nl", "block-map-nl", "explicit-key", "flow-seq", "flow-map", "flow-alternating", "seq-of-explicit-key", "built-seq", "built-map-value", "built-map-key", "block-seq-then-error", "block-seq-no-final-break", "flow-seq-empty-key-pairs", "flow-seq-pair-values", "flow-map-explicit-keys"];
 pub const APIS: [&str; 9] = ["iter", "push", "load+forget", "load+drop", "drop", "clone", "eq", "hash", "emit"];
 pub const DEPTHS: [usize; 10] = [1, 10, 100, 255, 256, 1000, 2000, 10_000, 30_000, 300_000];
+
+/// The finding key names the depth class, not the exact grid depth: where exactly a recursive path
+/// overflows an 8 MiB stack moves with frame sizes (even with a rebuild of the harness, which
+/// instantiates drop/clone glue), while "recurses once per level and dies somewhere beyond 10^4
+/// levels" is the defect. A crash below 10^4 levels is a different (worse) finding.
+fn depth_class(min_depth: usize) -> &'static str {
+    if min_depth >= 10_000 {
+        "depth>=10^4"
+    } else {
+        "depth<10^4"
+    }
+}
 
 fn applicable(shape: usize, api: usize, depth: usize, tier: Tier) -> bool {
     let built = (8..=10).contains(&shape);
     // the two extra text shapes are only driven through the pull iterator (push/load recurse per
     // level on any block nesting: known findings of the block-seq shape)
-    if shape >= 11 && api != 0 {
+    if (11..=12).contains(&shape) && api != 0 {
         return false;
+    }
+    // more flow shapes (the flow-depth limit must hold however the levels are spelled): cheap while
+    // the limit holds, so every depth is a grid point for every text API in both tiers
+    if shape >= 13 {
+        return api < 4 && depth != 10_000;
     }
     // constructed trees exercise the tree operations in isolation; text shapes exercise parsing/loading
     if built != (api >= 4) {
@@ -88,6 +105,9 @@ pub fn text_for(shape: usize, d: usize) -> String {
         }
         7 => format!("{}a", "- ? ".repeat(d)),
         11 => format!("{}[", "- ".repeat(d)),
+        13 => format!("{}y{}", "[: x, ".repeat(d), "]".repeat(d)),
+        14 => format!("{}b{}", "[a: ".repeat(d), "]".repeat(d)),
+        15 => format!("{}a{}", "{? ".repeat(d), "}".repeat(d)),
         _ => format!("{}a", "- ".repeat(d)),
     }
 }
@@ -242,7 +262,7 @@ pub fn worker(grid_name: &str, from: u64, to: u64) {
 
 pub fn check(tier: Tier) -> i32 {
     let mut rep = Report::new("C11", tier, "exploration");
-    rep.rule = "finite grid of nesting shapes {block sequence on one line, block sequence / block mapping with one indentation level per line, explicit keys, flow sequence, flow mapping, alternating flow, sequence of explicit keys} x depths {1,10,100,255,256,1000,2000,3*10^4,3*10^5} x {iterator, push into a null receiver, load_from_str + forget, load_from_str + drop}, and iteratively constructed trees {nested sequences, nested mapping values, nested mapping keys} x the same depths x {drop, clone, ==, hash, emit}; every scenario runs in its own child process on a thread with an 8 MiB stack; a child that dies by a signal (or hangs) is re-run alone to confirm. Oracle: normal exit with success or an Err value. Non-trivial/distinct: distinct (shape, api, depth, outcome).".into();
+    rep.rule = "finite grid of nesting shapes {block sequence on one line, block sequence / block mapping with one indentation level per line, explicit keys, flow sequence, flow mapping, alternating flow, sequence of explicit keys, flow sequences of empty-key pairs '[: x, [: x, ...', of pair values '[a: [a: ...', flow mappings of explicit keys '{? {? ...'} x depths {1,10,100,255,256,1000,2000,3*10^4,3*10^5} x {iterator, push into a null receiver, load_from_str + forget, load_from_str + drop}, and iteratively constructed trees {nested sequences, nested mapping values, nested mapping keys} x the same depths x {drop, clone, ==, hash, emit}; every scenario runs in its own child process on a thread with an 8 MiB stack; a child that dies by a signal (or hangs) is re-run alone to confirm. Oracle: normal exit with success or an Err value. Non-trivial/distinct: distinct (shape, api, depth, outcome).".into();
     rep.assumptions = vec!["'any depth that fits in memory' is decided on a finite grid up to depth 3*10^5 (3*10^4 in the quick tier, 10^4 for the quadratic-size shapes, 2000 for constructed nested keys whose construction is quadratic) on an 8 MiB stack".into()];
     rep.mandatory_scopes = 1;
     let g = grid(tier);
@@ -261,7 +281,7 @@ pub fn check(tier: Tier) -> i32 {
         let d = ds[0];
         rep.acc.evals += ds.len() as u64;
         rep.acc.violation(Violation {
-            key: format!("{kind} shape={} api={} min_depth={d}", SHAPES[s], APIS[a]),
+            key: format!("{kind} shape={} api={} {}", SHAPES[s], APIS[a], depth_class(d)),
             expected: "success or an error value".into(),
             observed: format!("process {kind} (stack overflow / signal) at depths {ds:?}"),
             case: json!({"kind": "scenario", "shape": SHAPES[s], "api": APIS[a], "depth": d}),
@@ -286,7 +306,7 @@ pub fn replay(case: &Value) -> Result<Acc, String> {
     let r = crate::isolate::run_grid_range("C11", exe_grid, i as u64, i as u64 + 1, 60, deadline);
     acc.merge(r.acc);
     for (_, how) in r.abnormal {
-        acc.violation(Violation { key: format!("{} shape={} api={} min_depth={d}", how.kind(), SHAPES[s], APIS[a]), expected: "success or an error value".into(), observed: how.name(), case: case.clone(), size: d });
+        acc.violation(Violation { key: format!("{} shape={} api={} {}", how.kind(), SHAPES[s], APIS[a], depth_class(d)), expected: "success or an error value".into(), observed: how.name(), case: case.clone(), size: d });
     }
     Ok(acc)
 }
